@@ -1,6 +1,7 @@
 package c14
 
 import (
+	"fmt"
 	"math"
 	"strings"
 
@@ -15,9 +16,15 @@ type fault struct {
 	lenient bool        // the documentation does not clearly demand an error: only counted if none is raised
 	getters []string    // getters through which the same fault must be reported
 	// parentRaised: the error is produced on behalf of the holder of the
-	// setting (or the value is a container), so only the source family is
-	// demanded, not the exact operand of a merge chain
+	// setting because no value exists at the setting (absent, null) or the
+	// documentation does not pin the outcome down (lenient): only the source
+	// family is demanded, not the exact operand of a merge chain. A value that
+	// exists (primitive, reference text, list, object) carries the source of
+	// the operand that delivered it.
 	parentRaised bool
+	// form of a reference fault: "" (the whole value is the reference) or the
+	// kind of splice the reference is embedded in
+	form string
 	wantRel      string // the error is expected to name this setting below the fault position
 	// extras are helper settings added at the top level of the configuration
 	// (only when the target is a struct, which does not read them): they are
@@ -61,6 +68,31 @@ type faultEnv struct {
 	pick      func(n int) int
 	topStruct bool                 // the Unpack target is a struct: unknown top-level keys are not read
 	primFor   func(p []seg) string // dotted path of a primitive setting elsewhere in the valid tree ("" if none)
+	dictFor   func(p []seg) string // dotted path of a non-empty dictionary elsewhere in the valid tree ("" if none)
+	listFor   func(p []seg) (string, int) // dotted path and length of a non-empty list elsewhere in the valid tree
+}
+
+// sigKind is the fault kind as used in signatures: reference faults carry the
+// form of the text the reference is embedded in.
+func (f fault) sigKind() string { return f.kind + f.form }
+
+// refForms: how the text of a failing reference ${ref} is embedded in the
+// value of the setting. Whatever the form, evaluating the setting fails, and
+// the setting holding the text is the one at fault.
+var refForms = []struct {
+	name string
+	text func(ref string, pick func(int) int) string
+}{
+	{"", func(ref string, _ func(int) int) string { return ref }},
+	{"+splice-text", func(ref string, pick func(int) int) string {
+		return []string{"pre-" + ref, ref + "/cache", "a " + ref + " b", ref + ref}[pick(4)]
+	}},
+	{"+splice-list", func(ref string, pick func(int) int) string {
+		return []string{ref + ",extra", "first," + ref, "[1, " + ref + ", 3]"}[pick(3)]
+	}},
+	{"+splice-object", func(ref string, pick func(int) int) string {
+		return []string{"{zk: " + ref + "}", "{zk: 1, zm: " + ref + ", zn: 2}", "{zk: {zm: [" + ref + "]}}"}[pick(3)]
+	}},
 }
 
 func faultsAt(p *position, env faultEnv) []fault {
@@ -69,16 +101,34 @@ func faultsAt(p *position, env faultEnv) []fault {
 	add := func(f fault) { out = append(out, f) }
 	self := "${" + pathStr(p.path) + "}"
 	refs := func() {
-		add(fault{kind: "unresolvable-reference", val: model.P(refMissing), getters: allGetters, parentRaised: true})
-		add(fault{kind: "cyclic-reference", val: model.P(self), getters: allGetters, parentRaised: true})
+		// the reference text is embedded as the whole value (2 of 5) or in a
+		// splice evaluating to a text, a list or an object (1 of 5 each)
+		ref := func(kind, r string, extras map[string]*model.Node) {
+			fm := refForms[0]
+			if x := pick(5); x >= 2 {
+				fm = refForms[x-1]
+			}
+			add(fault{kind: kind, form: fm.name, val: model.P(fm.text(r, pick)), getters: allGetters, extras: extras})
+		}
+		// multi-segment paths failing at the first segment, ...
+		ref("unresolvable-reference", []string{refMissing, "${nope}", "${nope.x.y}", "${nope.0.x}"}[pick(4)], nil)
+		// ... at an intermediate or at the last segment below a namespace that exists, ...
+		if d := env.dictFor(p.path); d != "" {
+			ref("unresolvable-reference-intermediate", "${"+d+[]string{".zz_nope.x", ".zz_nope.x.y", ".zz_nope.0"}[pick(3)]+"}", nil)
+			ref("unresolvable-reference-last", "${"+d+".zz_nope}", nil)
+		}
+		// ... at an index beyond a list that exists (last or intermediate)
+		if l, n := env.listFor(p.path); l != "" {
+			ref("unresolvable-reference-list-index", fmt.Sprintf("${%s.%d%s}", l, n+pick(3), []string{"", "", ".x", ".0"}[pick(4)]), nil)
+		}
+		ref("cyclic-reference", self, nil)
 		// references failing with a typed error that carries no path of its
 		// own: a cycle between two other settings, a path through a primitive
 		if env.topStruct {
-			add(fault{kind: "cyclic-reference-pair", val: model.P("${zz_x}"), getters: allGetters, parentRaised: true,
-				extras: map[string]*model.Node{"zz_x": model.P("${zz_y}"), "zz_y": model.P("${zz_x}")}})
+			ref("cyclic-reference-pair", "${zz_x}", map[string]*model.Node{"zz_x": model.P("${zz_y}"), "zz_y": model.P("${zz_x}")})
 		}
 		if q := env.primFor(p.path); q != "" {
-			add(fault{kind: "reference-through-primitive", val: model.P("${" + q + []string{".x.y", ".x.y.z", ".0.x.y", ".k.1"}[pick(4)] + "}"), getters: allGetters, parentRaised: true})
+			ref("reference-through-primitive", "${"+q+[]string{".x.y", ".x.y.z", ".0.x.y", ".k.1", ".x"}[pick(5)]+"}", nil)
 		}
 	}
 	s := p.sp
@@ -93,13 +143,16 @@ func faultsAt(p *position, env faultEnv) []fault {
 		add(fault{kind: "primitive-for-object", val: model.P([]interface{}{"text", int64(7), true, 2.5}[pick(4)]), getters: []string{"Child"}})
 		add(fault{kind: "list-for-object", val: lst(int64(1), int64(2)), lenient: true, parentRaised: true})
 		if s.kind == kMap && hasTag(tag, "nonzero") {
-			add(fault{kind: "validator-nonzero", val: model.Dict(), parentRaised: true})
+			add(fault{kind: "validator-nonzero", val: model.Dict()})
 		}
 		if s.kind == kStruct && !s.ptr && p.fld != nil {
 			// the whole struct setting is absent: the first validated setting
 			// inside it fails on its zero value
 			if rel := s.failsOnZero(); rel != "" {
 				add(fault{kind: "required-in-missing-struct", del: true, parentRaised: true, wantRel: rel, noSource: true})
+				// the struct setting is present as null: its members are
+				// absent all the same, but the null carries a source
+				add(fault{kind: "required-in-null-struct", val: model.Nil(), parentRaised: true, wantRel: rel})
 			}
 		}
 		refs()
@@ -121,14 +174,14 @@ func faultsAt(p *position, env faultEnv) []fault {
 				}
 			}
 			long.A = append(long.A, p.node.A[0].Copy())
-			add(fault{kind: "array-too-short", val: short, parentRaised: true})
-			add(fault{kind: "array-too-long", val: long, parentRaised: true})
+			add(fault{kind: "array-too-short", val: short})
+			add(fault{kind: "array-too-long", val: long})
 		}
 		if hasTag(tag, "nonzero") {
-			add(fault{kind: "validator-nonzero", val: model.List(), parentRaised: true})
+			add(fault{kind: "validator-nonzero", val: model.List()})
 		}
 		if hasTag(tag, "required") {
-			add(fault{kind: "validator-required-empty", val: model.List(), parentRaised: true})
+			add(fault{kind: "validator-required-empty", val: model.List()})
 			if !p.elemTag {
 				add(fault{kind: "validator-required-null", val: model.Nil(), parentRaised: true})
 				add(fault{kind: "validator-required-missing", del: true, parentRaised: true})
@@ -146,11 +199,11 @@ func leafFaults(p *position, s *spec, tag string, add func(fault), pick func(int
 	lk := s.leaf
 	if lk == lSpan {
 		add(fault{kind: "primitive-for-object", val: model.P("text"), getters: []string{"Child"}})
-		add(fault{kind: "validate-method", val: sub("lo", int64(9), "hi", int64(1)), parentRaised: true})
+		add(fault{kind: "validate-method", val: sub("lo", int64(9), "hi", int64(1))})
 		return
 	}
-	add(fault{kind: "object-for-primitive", val: sub("zz", int64(1)), getters: []string{"String", "Int", "Bool", "Float", "Uint"}, parentRaised: true})
-	add(fault{kind: "list-for-primitive", val: lst(int64(1), int64(2)), getters: []string{"String", "Int", "Bool", "Float", "Uint"}, parentRaised: true})
+	add(fault{kind: "object-for-primitive", val: sub("zz", int64(1)), getters: []string{"String", "Int", "Bool", "Float", "Uint"}})
+	add(fault{kind: "list-for-primitive", val: lst(int64(1), int64(2)), getters: []string{"String", "Int", "Bool", "Float", "Uint"}})
 	// validator tags: all of them are run on the converted value
 	if !s.ptr {
 		num := lk.number()
